@@ -14,7 +14,7 @@ def strip_turbofish(p):
     i = 0
     n = len(p)
     while i < n:
-        if p.startswith('::<', i):
+        if p.startswith('::<', i) and not p.startswith('::<impl ', i):
             depth = 0
             j = i + 2
             while j < n:
